@@ -157,6 +157,7 @@ func (t *Transaction) With(name string, readOnly bool, createFn func() (Cachable
 	if existingCache, ok := t.manager.sharedCaches[name]; ok {
 		existingCache.lastAccessed = time.Now()
 		t.manager.mu.Unlock()
+		verifAfterLookup(name, readOnly)
 		/* Bbolt allows multiple read transactions to be open at the same time
 		 * but only a single write. For example, if there is an insert operation,
 		 * we should still be able to search. Now, we need to make sure the cache
